@@ -110,6 +110,24 @@ theorem C11_stage_all_invalid (root : Path) (names : List Path) (valid : Nat →
       obtain ⟨h1, h2⟩ := ih (i + 1) (releaseRound root names s) (Nat.pos_of_ne_zero ht)
       exact ⟨h1, by rw [h2]; omega⟩
 
+/-- **C11 / C12 (round budget).** Whatever the verdicts are, the stage runs at least one and at most `max 1 retries` rounds. -/
+theorem C11_stage_round_bound (root : Path) (names : List Path) (valid : Nat → Bool) :
+    ∀ (t i : Nat) (s : DState), 0 < t →
+      i + 1 ≤ (releaseStage root names valid t i s).2.1 ∧ (releaseStage root names valid t i s).2.1 ≤ i + t := by
+  intro t
+  induction t with
+  | zero => intro i s h0; cases h0
+  | succ t ih =>
+    intro i s _
+    unfold releaseStage
+    split
+    · exact ⟨Nat.le_refl _, by simp only; omega⟩
+    · split
+      · exact ⟨Nat.le_refl _, by simp only; omega⟩
+      · rename_i ht
+        obtain ⟨h1, h2⟩ := ih (i + 1) (releaseRound root names s) (Nat.pos_of_ne_zero ht)
+        exact ⟨by omega, by omega⟩
+
 /-! non-vacuity: skel holds a stale `InRelease` (left by an earlier run; the upstream has withdrawn it) and a `Release` the server
     still serves: after the stage `InRelease` is gone, `Release` is there (kernel-evaluated) -/
 namespace StageEx
